@@ -26,8 +26,9 @@ PROPS = "props/C20.v"
 ISOLATE = True
 N_QUICK = 64
 N_THOROUGH = 640
-RULE = ("histories of 2-7 operations (register / find_scheme / find_scheme_class / header validation / Strict "
-        "write+read round trip) on a fresh interpreter over 1-4 generated extra files (extending shipped "
+RULE = ("histories of 2-9 operations (register / find_scheme / find_scheme_class / header validation / Strict "
+        "write+read round trip / keep = parse a valid line under a resolved pair and keep the record / reuse = validate and "
+        "Strict-write the kept record against the pair as resolved later) on a fresh interpreter over 1-4 generated extra files (extending shipped "
         "definitions, extending each other across files and calls, standalone, clones of shipped layouts; repeated "
         "names, the same file under another spelling, ill-formed files of each C14 kind, missing files), versions "
         "and annotations in the documented patterns gdc-N.N.N / gdc-N.N.N-word or not starting with gdc-; after "
@@ -37,6 +38,9 @@ RULE = ("histories of 2-7 operations (register / find_scheme / find_scheme_class
 ASSUMPTIONS = C14.ASSUMPTIONS + [
     "the extra files and the shipped files do not change during a history (every registration re-reads all of them)",
     "file names are compared as given (two spellings of one path are two names, as in the library)",
+    "the Registry model identifies a synthesised column class with its (extra, base) structure and has no notion of python "
+    "class-object identity; that a record parsed before a registration is still an instance of the column classes resolved "
+    "after it (extend_class returns the same object for the same pair) is judged by the oracle on /repo only (keep/reuse ops)",
 ]
 TRUSTED_EXTRA = C14.TRUSTED_EXTRA
 
@@ -86,7 +90,7 @@ def to_model(case):
         if op[0] == "reg":
             ops.append([0, [S(n) for n in op[1]]])
         else:
-            code = {"findcls": 1, "find": 2, "hdr": 3, "rt": 3}[op[0]]
+            code = {"findcls": 1, "find": 2, "hdr": 3, "rt": 3, "keep": 2, "reuse": 2}[op[0]]
             v, a = op[1], op[2]
             if op[0] == "rt" and v == a:
                 a = None
@@ -107,7 +111,7 @@ def _dec_outcome(op, o, digests):
     v = o[1]
     if op[0] == "reg":
         return {"ok": [_dec_scheme(s, digests) for s in v]}
-    if op[0] in ("find", "findcls"):
+    if op[0] in ("find", "findcls", "keep", "reuse"):
         return {"ok": _dec_scheme(v[0], digests) if v else None}
     return {"ok": [HERR[c] for c in v]}
 
@@ -207,6 +211,64 @@ def _round_trip(v, a):
         return "raised-" + type(e).__name__ + ":" + str(getattr(getattr(e, "tpe", None), "name", ""))
 
 
+def _sample_line(s):
+    names = s.column_names()
+    if not names:
+        return None
+    texts = [_sample(s.column_class(n), n) for n in names]
+    if any(t is None for t in texts) or all(t == "" for t in texts):
+        return None
+    return "\t".join(texts)
+
+
+def _keep(v, a):
+    """parse a valid line under the scheme (v, a) resolves to now and keep the record"""
+    import maflib.scheme_factory as sf
+    from maflib.record import MafRecord
+    from maflib.validation import ValidationStringency as VS
+    s = sf.find_scheme(version=v, annotation=a)
+    if s is None:
+        return "no-scheme", None
+    line = _sample_line(s)
+    if line is None:
+        return "no-sample", None
+    try:
+        rec = MafRecord.from_line(line, scheme=s, line_number=1, validation_stringency=VS.Strict)
+        errs = rec.validate(validation_stringency=VS.Strict, scheme=s)
+        if errs or str(rec) != line:
+            return "not-accepted-when-parsed", None
+    except Exception as e:
+        return "raised-" + type(e).__name__, None
+    return "ok", (rec, line)
+
+
+def _reuse(v, a, kept):
+    """validate and Strict-write the kept record against the scheme (v, a) resolves to NOW"""
+    import maflib.scheme_factory as sf
+    from maflib.header import MafHeader
+    from maflib.writer import MafWriter
+    from maflib.validation import ValidationStringency as VS
+    rec, line = kept
+    try:
+        s = sf.find_scheme(version=v, annotation=a)
+        if s is None:
+            return "no-scheme"
+        errs = rec.validate(validation_stringency=VS.Silent, scheme=s)
+        if errs:
+            return "kept-record-fails-validation:" + ",".join(sorted(set(e.tpe.name for e in errs)))
+        hl = ["#version " + v] + ([] if v == a else ["#annotation.spec " + a])
+        h = MafHeader.from_lines(hl, validation_stringency=VS.Strict)
+        out = _KeepIO()
+        w = MafWriter.from_fd(out, h, validation_stringency=VS.Strict)
+        w += rec
+        w.close()
+        if out.getvalue().splitlines()[-1] != line:
+            return "kept-record-renders-differently"
+        return "ok"
+    except Exception as e:
+        return "raised-" + type(e).__name__ + ":" + str(getattr(getattr(e, "tpe", None), "name", ""))
+
+
 def run_impl(case):
     import maflib.scheme_factory as sf
     from maflib.column_types import get_column_types
@@ -219,6 +281,7 @@ def run_impl(case):
     uni = universe(case)
     steps = []
     full = {}
+    kept = {}
 
     def obs(s):
         o = C14.obs_scheme(s if isinstance(s, type) else type(s), known)
@@ -255,6 +318,18 @@ def run_impl(case):
                     s = sf.find_scheme(version=op[1], annotation=op[2])
                     return None if s is None else obs(s)
                 out = call(f)
+            elif op[0] in ("keep", "reuse"):
+                def f():
+                    s = sf.find_scheme(version=op[1], annotation=op[2])
+                    return None if s is None else obs(s)
+                out = call(f)
+                if op[0] == "keep":
+                    r, k = _keep(op[1], op[2])
+                    extra["_keep"] = r
+                    if k is not None:
+                        kept[op[3]] = k
+                else:
+                    extra["_reuse"] = _reuse(op[1], op[2], kept[op[3]]) if op[3] in kept else "nothing-kept"
             elif op[0] == "findcls":
                 def f():
                     s = sf.find_scheme_class(version=op[1], annotation=op[2])
@@ -351,6 +426,7 @@ def oracle(case, obs):
     expected = dict(base)      # pair -> digest the registry must resolve now
     sure = True                # False once the history left the zone the property speaks about
     prev_look = None
+    kept_ok = set()
     for n, (op, stp) in enumerate(zip(case["ops"], obs["steps"])):
         o = stp["out"]
         where = "after op %d %s" % (n, op[0])
@@ -394,11 +470,17 @@ def oracle(case, obs):
                         out.append("%s-scheme-wrong-layout %s %s" % (kind, list(p), where))
                 elif l.get("ok") is not None and "exc" not in l:
                     out.append("unregistered-pair-resolves %s %s" % (list(p), where))
-        if op[0] in ("find", "findcls") and sure:
+        if op[0] in ("find", "findcls", "keep", "reuse") and sure:
             p = (op[1], op[2])
             if p in expected:
                 if o.get("ok") is None or o["ok"][:2] != list(p) or o["ok"][2] != expected[p]:
                     out.append("lookup-of-known-pair-wrong %s %s" % (list(p), where))
+        if op[0] == "keep" and stp.get("_keep") == "ok":
+            kept_ok.add(op[3])
+        if op[0] == "reuse" and sure and op[3] in kept_ok and (op[1], op[2]) in expected:
+            kind = "built-in" if (op[1], op[2]) in base else "registered"
+            if stp.get("_reuse") != "ok":
+                out.append("%s-record-accepted-before-not-after %s %s %s" % (kind, stp.get("_reuse"), [op[1], op[2]], where))
         if op[0] in ("hdr", "rt") and sure:
             p = (op[1], op[2])
             proper = p in expected and (op[0] == "rt" or p[0] != p[1])
@@ -518,6 +600,28 @@ def _builtin_defs(rng, k=1):
     return [{"version": j["version"], "annotation-spec": j["annotation-spec"]} for _, j in rng.sample(C14.builtin_files(), k)]
 
 
+MASKED = ["gdc-1.0.0-public", "gdc-1.0.1-public", "gdc-1.0.0-aliquot-merged-masked",
+          "gdc-2.0.0-aliquot-merged-masked"]
+
+
+def _with_kept(rng, ops, own=None):
+    """keep a record under a (mostly masked) shipped scheme at the start - or under an own
+    registered pair right after its registration - and re-use it at the end"""
+    slot = 0
+    res = list(ops)
+    if rng.random() < 0.8:
+        annots = [j["annotation-spec"] for _, j in C14.builtin_files()]
+        a = rng.choice([m for m in MASKED if m in annots] or annots) if rng.random() < 0.7 else rng.choice(annots)
+        res = [["keep", "gdc-1.0.0", a, slot]] + res + [["reuse", "gdc-1.0.0", a, slot]]
+        slot += 1
+    if own and rng.random() < 0.5:
+        regs = [i for i, o in enumerate(res) if o[0] == "reg"]
+        if len(regs) >= 2:
+            v, a = own
+            res = res[:regs[0] + 1] + [["keep", v, a, slot]] + res[regs[0] + 1:] + [["reuse", v, a, slot]]
+    return res
+
+
 def _gen_valid(rng):
     k = rng.choice([1, 2, 2, 3, 3, 4])
     defs = _gen_files(rng, k)
@@ -544,6 +648,9 @@ def _gen_valid(rng):
         ops += _ops_probe(rng, [files[n]["data"] for n in done], 1)
     if rng.random() < 0.3:
         ops.append(["reg", []])
+    if rng.random() < 0.6:
+        first = files[groups[0][0]]["data"] if groups[0] else None
+        ops = _with_kept(rng, ops, (first["version"], first["annotation-spec"]) if first else None)
     return {"stream": "valid", "note": "", "files": files, "ops": ops}
 
 
@@ -606,6 +713,8 @@ def _gen_defect(rng):
     if rest and rng.random() < 0.6:
         ops.append(["reg", rest])
         ops += _ops_probe(rng, [files[n]["data"] for n in rest], 1)
+    if rng.random() < 0.4:
+        ops = _with_kept(rng, ops)
     return {"stream": "defect", "note": kind, "files": files, "ops": ops}
 
 
@@ -722,6 +831,9 @@ def corpus():
          "files": dict(files, **{"bad.json": {"kind": "raw", "text": "{"}}),
          "ops": [["reg", ["b.json"]], ["reg", ["bad.json", "a.json"]], ["find", "gdc-1.0.0", "gdc-1.0.0-lab-b"],
                  ["reg", ["a.json"]], ["rt", "gdc-1.0.0", "gdc-1.0.0-lab-b"]]},
+        {"stream": "corpus", "note": "a record parsed under a masked built-in before a registration was refused by the same pair after it "
+                                     "(every reload synthesised new mix-in column classes)", "files": files,
+         "ops": [["keep", "gdc-1.0.0", "gdc-1.0.0-public", 0], ["reg", ["b.json"]], ["reuse", "gdc-1.0.0", "gdc-1.0.0-public", 0]]},
     ]
 
 
